@@ -202,6 +202,7 @@ def serviceStep (st : ServiceSt) (toks : List String) : ServiceSt × String :=
   | ["spermit", _] => (st, "ok")   -- the permit list concerns the packet filter only
   | ["sevresub", _] => (st, "ok")  -- a new event stream: what is observed does not change
   | ["ssleep", _] => (st, "ok")
+  | ["sway", x, peer, addr] => runOn st x (fun s o => s.step o (.whoAreYou (sKey peer) (parseAddr addr))) [] none
   | ["sevpause", x] =>
     match getInst st x with
     | some i => (setInst st { i with evPaused := true }, "ok")
